@@ -265,6 +265,6 @@ func Run(sc *Scenario, hooks *Hooks) *Outcome {
 	}
 	r.Log.Append(rig.Ev{Kind: rig.KNote, Note: "scenario-end", Arg: fmt.Sprintf("status=%s stored=%v blocked=%d", out.FinalStatus, out.FinalStored, r.Plugins.Blocked())})
 	out.Evs = r.Log.Close()
-	out.Snaps = r.Snaps
+	out.Snaps = r.SnapsCopy()
 	return out
 }
